@@ -48,17 +48,18 @@ func callBucket(t fataler, c *bpfnative.Client, tb bucket, size uint32, clock ui
 // rate-0 clause, for sizes 1..65535 and the whole rate/burst/clock domain.
 func TestPropHelperSequence(t *testing.T) {
 	c := startRunner(t)
+	unit := detectTokenUnit(t, c)
 	vstat.Checks(2500, 60000)
 	rapid.Check(t, func(rt *rapid.T) {
 		s := genSeq(rt, 1, true)
 		rate, burst := s.Rate, s.Burst
 		// initial bucket: as the manager writes it (full, last_update 0) or mid-life (any fill level,
 		// refreshed at some earlier instant of the monotonic clock)
-		tb := bucket{Tokens: uint64(burst), LastUpdate: 0, Rate: rate, Burst: burst, Prio: uint8(rapid.IntRange(0, 7).Draw(rt, "prio"))}
+		tb := bucket{Tokens: uint64(burst) * unit, LastUpdate: 0, Rate: rate, Burst: burst, Prio: uint8(rapid.IntRange(0, 7).Draw(rt, "prio"))}
 		state := "init:fresh"
 		if chance(rt, "midlife", 1, 2) {
 			state = "init:midlife"
-			tb.Tokens = rapid.Uint64Range(0, uint64(burst)).Draw(rt, "tokens0")
+			tb.Tokens = rapid.Uint64Range(0, uint64(burst)*unit).Draw(rt, "tokens0")
 			tb.LastUpdate = s.T0 - logUniform(rt, 0, s.T0, "age0")
 		}
 		tb0 := tb
@@ -86,7 +87,7 @@ func TestPropHelperSequence(t *testing.T) {
 		cls = append(cls, state, "layer:helper")
 		nt := nonTrivial(p.ev)
 		if nt {
-			cls = append(cls, "nt:drop-then-admit")
+			cls = append(cls, "nt:drop-then-admit", "nt:helper")
 		}
 		if a, d := countAdm(p.ev); d == 0 {
 			cls = append(cls, "all-admitted")
